@@ -8,7 +8,7 @@ from impl import trees, treeoutput, treeanalysis, quiet, clone
 import gram
 
 ID = "C02"
-MODULE = ['TT.Props.C02', 'TT.Props.C02Export', 'TT.Props.C02Tiger', 'TT.Props.C02Carry', 'TT.Props.C02Disco']
+MODULE = ['TT.Props.C02', 'TT.Props.C02Export', 'TT.Props.C02Tiger', 'TT.Props.C02Carry', 'TT.Props.C02Disco', 'TT.Props.C03Words']
 RULE = ("well-formed trees built through the tree API (all shapes, gap patterns, XML-special / non-ASCII / parenthesis "
         "characters, field lengths 7/8/15/16, lemma/morph/edge present or None, head/split marks present or not) x the "
         "five writers x random subsets of the documented output options; each output is decoded by the specification "
@@ -212,6 +212,14 @@ def one(rng):
 
 
 def gen(seed, tier, scale):
+    # wave 18: the writers' options as WORDS of `--dest-opts` through `treetools transform` (TT.outOptsOf / TT.runWords2;
+    # theorems TT/Props/C03Words.lean: outOptsOf_flags, outOptsOf_sep_last)
+    import srccases
+    import cli
+    nw = (30 if tier == "quick" else 500) * scale
+    rngs = [case_rng(seed, ID, 900000 + i) for i in range(nw)]
+    for i, c in enumerate(cli.pmap(srccases.dest_words_case, rngs)):
+        yield 900000 + i, c
     for i in range((3 if tier == "quick" else 40) * scale):
         yield 800000 + i, huge_case(case_rng(seed, ID, 800000 + i))
     idx = 0
